@@ -511,8 +511,12 @@ func (h *DijkstraBlockHeader) UnmarshalCBOR(cborData []byte) error {
 	if _, err := cbor.Decode(top[1], &signature); err != nil {
 		return err
 	}
-	h.Body = body
-	h.Signature = signature
+	// Replace the embedded header as a whole (as the fast path does) so that a
+	// hash cached from an earlier decode into this receiver does not survive
+	h.BabbageBlockHeader = babbage.BabbageBlockHeader{
+		Body:      body,
+		Signature: signature,
+	}
 	h.LeiosHeaderExtension = bodyElems[babbageHeaderBodyFieldCount:]
 	h.SetCbor(cborData)
 	return nil
